@@ -124,9 +124,9 @@ pub fn split_into_deflate_streams(
             }
 
             Signature::IDAT => {
-                if index >= 4 {
-                    // idat has the length first, then the "IDAT", so we need to look back 4 bytes
-                    // if we find and IDAT
+                // idat has the length first, then the "IDAT", so we need to look back 4 bytes
+                // if we find and IDAT. The length field must not overlap the previous stream.
+                if index >= 4 && index - 4 >= prev_index {
                     let real_start = index - 4;
                     if let Ok((r, payload)) = parse_idat(&src[real_start..], 0) {
                         if let Ok(res) = decompress_deflate_stream(&payload, true, loglevel) {
